@@ -28,6 +28,7 @@ package lamport
 //@   props C05
 //@   requires mc != nil
 //@   nopanic
+//@   overflow
 //@   modifies mc.counter
 //@   ensures [returns-new-value] err == nil ==> result == mc.counter
 //@   ensures [strictly-greater]  err == nil ==> result > old(mc.counter)
